@@ -87,6 +87,7 @@ def derived_line(f):
     if k == "B": return "%s BIT %s %d %d" % (f["name"], f["in"], f["bitnum"], f["numbits"])
     if k == "M": return "%s MULTIPLY %s %s" % (f["name"], f["a"], f["b"])
     if k == "X": return "%s MPLEX %s %s %d %d" % (f["name"], f["in"], f["cnt"], f["cval"], f["period"])
+    if k == "W": return "%s WINDOW %s %s %s %d" % (f["name"], f["in"], f["cnt"], f["op"], f["thr"])
     raise ValueError(k)
 
 
@@ -136,6 +137,12 @@ class Spec:
         if kd == "M":
             x = self.val(g["a"], k); y = self.val(g["b"], k)
             return None if x is None or y is None else x * y
+        if kd == "W":
+            x = self.val(g["in"], k); c = self.val(g["cnt"], k)
+            if x is None or c is None: return None
+            t = g["thr"]
+            ok = {"EQ": c == t, "NE": c != t, "GT": c > t, "LT": c < t, "GE": c >= t, "LE": c <= t}[g["op"]]
+            return x if ok else (float("nan") if self.fl else 0)
         if kd == "X":
             x = self.val(g["in"], k); c = self.val(g["cnt"], k)
             if x is None or c is None: return None
@@ -174,6 +181,7 @@ class Spec:
         if kd == "L": return self.ok_type(g["in"], s, m, T)
         if kd == "B": return True
         if kd == "M": return self.ok_type(g["a"], s, m, T)
+        if kd == "W": return self.ok_type(g["in"], s, m, T)
         if kd == "X":
             if not self.ok_type(g["in"], s, m, T): return False
             self.fl = T in FLOAT_TYPES
@@ -200,7 +208,7 @@ class Spec:
         if kd == "P": return self.eof(g["in"]) - g["shift"]
         if kd in ("L", "B"): return self.eof(g["in"])
         if kd == "M": return min(self.eof(g["a"]), self.eof(g["b"]))
-        if kd == "X": return min(self.eof(g["in"]), self.eof(g["cnt"]))
+        if kd in "XW": return min(self.eof(g["in"]), self.eof(g["cnt"]))
 
     def bof(self, f):
         if f in self.raw: return self.foff
@@ -208,7 +216,7 @@ class Spec:
         if kd == "P": return max(0, self.bof(g["in"]) - g["shift"])
         if kd in ("L", "B"): return self.bof(g["in"])
         if kd == "M": return max(self.bof(g["a"]), self.bof(g["b"]))
-        if kd == "X": return max(self.bof(g["in"]), self.bof(g["cnt"]))
+        if kd in "XW": return max(self.bof(g["in"]), self.bof(g["cnt"]))
 
     def inputs(self, f, sh=0):
         """[(raw, shift)] reached from f"""
@@ -217,7 +225,7 @@ class Spec:
         if kd == "P": return self.inputs(g["in"], sh + g["shift"])
         if kd in ("L", "B"): return self.inputs(g["in"], sh)
         if kd == "M": return self.inputs(g["a"], sh) + self.inputs(g["b"], sh)
-        if kd == "X": return self.inputs(g["in"], sh) + self.inputs(g["cnt"], sh)
+        if kd in "XW": return self.inputs(g["in"], sh) + self.inputs(g["cnt"], sh)
 
     def shifted(self, f):
         """is there a PHASE with a non-zero shift anywhere below f"""
@@ -226,7 +234,7 @@ class Spec:
         if kd == "P": return g["shift"] != 0 or self.shifted(g["in"])
         if kd in ("L", "B"): return self.shifted(g["in"])
         if kd == "M": return self.shifted(g["a"]) or self.shifted(g["b"])
-        if kd == "X": return self.shifted(g["in"]) or self.shifted(g["cnt"])
+        if kd in "XW": return self.shifted(g["in"]) or self.shifted(g["cnt"])
 
     def tell(self, f):
         ps = set()
@@ -436,6 +444,9 @@ def gen_case(rng, encs=None, model_only=False):
             a = rng.choice(["r0", "r1"]); b = "r1" if a == "r0" else "r0"
             if rng.random() < 0.3: b = a
             derived.append(dict(name=nm, kind="M", a=a, b=b))
+    if nraw >= 2 and rng.random() < 0.15 and not model_only:
+        derived.append(dict(name="wn", kind="W", cnt="r1", op=rng.choice(["EQ", "NE", "GT", "LT", "GE", "LE"]),
+                            thr=rng.choice([-1, 0, 1, 2, 50, 300]), **{"in": "r0"}))
     mplex = nraw >= 2 and rng.random() < 0.25 and not model_only
     if mplex:
         # index field r1 takes few values so that the count value recurs; inputs of equal length
@@ -469,7 +480,7 @@ def gen_case(rng, encs=None, model_only=False):
         from the previous read of the same field most of the time (the value must not depend on it)"""
         if st == "H":
             cand = ["i32", "i64", "f32", "f64", "c64", "c128"]     # all generated values are below 2^24 in magnitude
-            if any(g["kind"] == "X" for g in derived): cand = ["i32", "i64"]   # the MPLEX padding differs by type family
+            if any(g["kind"] in "XW" for g in derived): cand = ["i32", "i64"]   # the MPLEX/WINDOW filling differs by type family
         else:
             cand = [T for T in ALL_TYPES if sp.ok_type(f, st, n, T)] or ["i64"]
         pref = [T for T in cand if T != last_type.get(f)]
